@@ -34,7 +34,11 @@ pub fn analyze_order(egraph: &EGraph, enode: &Expr) -> OrderKey {
         Order([keys, _]) | TopN([_, _, keys, _]) => x(keys).clone(),
         // plans that preserve order
         Proj([_, c]) | Filter([_, c]) | Window([_, c]) | Limit([_, _, c]) => x(c).clone(),
-        MergeJoin([_, _, _, _, _, r]) => x(r).clone(),
+        // merge join keeps the order of its right input, unless it emits NULL-padded rows for
+        // unmatched left rows in between (left / full outer join)
+        MergeJoin([t, _, _, _, _, r]) if matches!(egraph[*t].nodes[0], Inner | RightOuter) => {
+            x(r).clone()
+        }
         SortAgg([_, _, c]) => x(c).clone(),
         // unordered for other plans
         _ => Box::new([]),
